@@ -7,7 +7,6 @@
 
 use crate::bridge::*;
 use crate::prng::Rng;
-use crate::props::c02::write_history;
 use crate::props::c07::gen_history;
 use crate::refimpl::refwriter::*;
 use crate::util::*;
@@ -33,7 +32,17 @@ pub fn gen_file(seed: u64, i: u64, want_many: bool) -> (Vec<u8>, usize) {
         for f in ["str-raw-cr-eol", "str-raw-crlf-eol"] {
             dis.insert(f.to_string());
         }
-        let (w, _) = write_history(r.next_u64(), &dis, &h, XrefStyle::Stream, true);
+        // every third file also carries "ghost" copies: an object number present in several
+        // object streams that no cross-reference entry names (not legal PDF, but bytes a loader
+        // can meet; determinism is claimed for all bytes)
+        let wseed = r.next_u64();
+        let w = {
+            let mut ch = Choices::new(wseed);
+            ch.disabled = dis.clone();
+            let mut rw = RefWriter::new(&mut ch);
+            rw.ghost_objects = i % 3 == 2;
+            rw.write(&h, XrefStyle::Stream, true)
+        };
         let k = w.objstm_ids.len();
         if (want_many && k >= 8) || (!want_many && (2..=6).contains(&k)) || tries > 200 {
             return (w.bytes, k);
@@ -171,6 +180,10 @@ pub fn run(cfg: &RunCfg) -> (PropMeta, ShardOut, Map<String, Value>) {
             out.sample(json!({"stage":2,"file":i,"bytes":bytes.len(),"object_streams":k,"distinct_completion_orders":file_orders.len()}));
         }
     }
+    // ---- stage 3 (thorough, default-features build only): Miri on the rayon loader
+    if !is_seq && !cfg.quick() {
+        miri_stage(cfg, &mut out);
+    }
     out.counters.insert("distinct_completion_orders_observed".into(), orders_seen.len() as u64);
     if !is_seq && orders_seen.len() < 20 {
         out.inconclusive.push(format!("sampling stage saw only {} distinct completion orders", orders_seen.len()));
@@ -195,6 +208,62 @@ pub fn run(cfg: &RunCfg) -> (PropMeta, ShardOut, Map<String, Value>) {
     let mut extra = Map::new();
     extra.insert("features".into(), json!(if is_seq { "seq" } else { "par" }));
     (meta, out, extra)
+}
+
+fn miri_stage(cfg: &RunCfg, out: &mut ShardOut) {
+    // the input (two object streams holding the same object number, uncompressed xref stream) is
+    // built inside the Miri harness itself: Miri interprets ~10^4 times slower than native code
+    let (bytes, k): (Vec<u8>, usize) = (vec![], 2);
+    let manifest = cfg.verif_dir.join("miri_c08").join("Cargo.toml");
+    let seeds = 16;
+    let t0 = std::time::Instant::now();
+    let res = std::process::Command::new("timeout")
+        .arg("1500")
+        .args(["cargo", "+nightly", "miri", "run", "--offline", "--manifest-path"])
+        .arg(&manifest)
+        .arg("--target-dir")
+        .arg(cfg.verif_dir.join("target").join("miri"))
+        .env("MIRIFLAGS", format!("-Zmiri-tree-borrows -Zmiri-ignore-leaks -Zmiri-many-seeds=0..{}", seeds))
+        .env_remove("RUSTFLAGS")
+        .output();
+    match res {
+        Err(e) => out.inconclusive.push(format!("Miri stage could not be started: {}", e)),
+        Ok(o) => {
+            let stdout = String::from_utf8_lossy(&o.stdout).to_string();
+            let stderr = String::from_utf8_lossy(&o.stderr).to_string();
+            let digests: Vec<&str> = stdout.lines().filter(|l| l.starts_with("digest=")).collect();
+            let distinct: BTreeSet<&str> = digests.iter().cloned().collect();
+            out.counters.insert("miri_seeds_run".into(), digests.len() as u64);
+            out.counters.insert("miri_wall_seconds".into(), t0.elapsed().as_secs());
+            out.counters.insert("miri_object_streams_in_file".into(), k as u64);
+            out.evaluations += digests.len() as u64;
+            let ub = stderr.contains("Undefined Behavior") || stderr.contains("data race") || stderr.contains("error: unsupported operation");
+            if ub {
+                let first = stderr.lines().find(|l| l.contains("Undefined Behavior") || l.contains("data race")).unwrap_or("").to_string();
+                out.finding(Finding {
+                    signature: "C08/miri/undefined-behaviour-or-data-race".into(),
+                    what: format!("Miri reported: {}", first),
+                    witness: json!({"kind":"miri","file_hex":hex(&bytes),"stderr_tail":stderr.chars().rev().take(3000).collect::<String>().chars().rev().collect::<String>()}),
+                });
+            } else if digests.iter().any(|d| !d.ends_with("obj3=B")) {
+                out.finding(Finding {
+                    signature: "C08/miri/wrong-copy".into(),
+                    what: format!("under Miri the object named by the cross-reference entry was not the one loaded: {:?}", distinct),
+                    witness: json!({"kind":"miri"}),
+                });
+            } else if distinct.len() > 1 {
+                out.finding(Finding {
+                    signature: "C08/miri/schedule-dependent".into(),
+                    what: format!("under Miri's randomised scheduler {} different digests were produced: {:?}", distinct.len(), distinct),
+                    witness: json!({"kind":"miri","file_hex":hex(&bytes)}),
+                });
+            } else if !o.status.success() || digests.len() < seeds {
+                out.inconclusive.push(format!("Miri stage did not complete ({} of {} seeds, exit {:?}): {}", digests.len(), seeds, o.status.code(), stderr.lines().rev().take(3).collect::<Vec<_>>().join(" | ")));
+            } else {
+                out.sample(json!({"stage":"miri","seeds":digests.len(),"digest":digests[0],"object_streams":k,"bytes":bytes.len()}));
+            }
+        }
+    }
 }
 
 pub fn replay(w: &Value) -> Vec<Finding> {
